@@ -905,3 +905,7 @@ impl From<ScopeError> for Error {
         Self::S(err.to_string())
     }
 }
+
+#[cfg(kani)]
+#[path = "/verif/kani/scopefns.rs"]
+mod kani_verif;
